@@ -196,3 +196,49 @@ func DictDurations() []time.Duration {
 
 var durOnce sync.Once
 var dictDurs []time.Duration
+
+// DictEnv returns the names of environment variables that the library's source reads (os.Getenv / os.LookupEnv with a
+// literal name). None at the pinned commit; a change that makes behaviour depend on the environment shows up here.
+func DictEnv() []string {
+	envOnce.Do(func() {
+		seen := map[string]bool{}
+		filepath.Walk(repoRoot(), func(p string, info os.FileInfo, err error) error {
+			if err != nil {
+				return nil
+			}
+			if info.IsDir() && info.Name() == ".git" {
+				return filepath.SkipDir
+			}
+			if !strings.HasSuffix(p, ".go") || strings.HasSuffix(p, "_test.go") {
+				return nil
+			}
+			f, err := parser.ParseFile(token.NewFileSet(), p, nil, 0)
+			if err != nil {
+				return nil
+			}
+			ast.Inspect(f, func(n ast.Node) bool {
+				c, ok := n.(*ast.CallExpr)
+				if !ok || len(c.Args) == 0 {
+					return true
+				}
+				if sel, ok := c.Fun.(*ast.SelectorExpr); ok && (sel.Sel.Name == "Getenv" || sel.Sel.Name == "LookupEnv") {
+					if l, ok := c.Args[0].(*ast.BasicLit); ok && l.Kind == token.STRING {
+						if s, err := strconv.Unquote(l.Value); err == nil && s != "" {
+							seen[s] = true
+						}
+					}
+				}
+				return true
+			})
+			return nil
+		})
+		for s := range seen {
+			dictEnv = append(dictEnv, s)
+		}
+		sort.Strings(dictEnv)
+	})
+	return dictEnv
+}
+
+var envOnce sync.Once
+var dictEnv []string
